@@ -48,6 +48,7 @@ def step (s : S) (ws : List String) : S × String :=
       | some r => ({ s with set := r.set, now := r.time }, s!"{showList (sortNat r.returned)} err={r.err} t={r.time}")
       | none => (s, "blocks-forever")
     | none => (s, "bad-op")
+  | ["twowait", _, _] => (s, "ok")   -- two concurrent waiters (real time): decided by the run's oracle
   | ["hasany", l] =>
     let cs := if l == "-" then [] else parseList l
     (s, toString (cs.any fun c => s.set.contains c))
